@@ -315,6 +315,39 @@ pub fn check(sh: &Shared, c: &Case) -> Check {
             }
         }
     }
+    // the same agreements in other calling contexts (a destructor during unwinding, a thread-local
+    // destructor at thread exit): one case in 16, the whole tuple at once
+    if !v.is_empty() && c.vals.iter().fold(c.n as u64, |a, b| a.wrapping_mul(31).wrapping_add(*b)) % 16 == 0 {
+        for ctx in crate::contexts::ALL {
+            sh.eval();
+            sh.class(&format!("context/{ctx:?}"));
+            let vv = v.clone();
+            let got = crate::contexts::run_in(ctx, move || {
+                vv.iter()
+                    .map(|x| {
+                        let x = *x;
+                        (
+                            guard(|| EvidentNumber::is_valid(&x)).ok(),
+                            guard(|| EvidentNumber::try_validate(&x).is_ok()).ok(),
+                            guard(|| {
+                                let _ = EvidentNumber::validate(&x);
+                            })
+                            .is_ok(),
+                            guard(|| Truth::try_from_floats([x].into_iter()).is_ok()).ok(),
+                            guard(|| Budget::new_single(x)).is_ok(),
+                        )
+                    })
+                    .collect::<Vec<_>>()
+            });
+            let Some(got) = got else { fail!("context:thread-died", "the thread evaluating {show:?} inside {ctx:?} died") };
+            for (x, g) in v.iter().zip(got.iter()) {
+                let want = in01(*x);
+                if *g != (Some(want), Some(want), want, Some(want), want) {
+                    fail!("evidence:context-dependent", "x = {x:?} inside {ctx:?}: (is_valid, try_validate.is_ok, validate returned, Truth::try_from_floats.is_ok, Budget::new_single returned) = {g:?}, reference {want}");
+                }
+            }
+        }
+    }
     let z = <f64 as EvidentNumber>::zero();
     let o = <f64 as EvidentNumber>::one();
     if z != 0.0 || o != 1.0 {
